@@ -466,10 +466,14 @@ class Prop(object):
         pubs = [K.pgpy_secret(x).pubkey for x in raws]
         import random
         rnd = random.Random(9)
-        for cname, data in (('small', b'foreign body'), ('empty', b''), ('big', bytes(rnd.getrandbits(8) for _ in range(5000)))):
+        # ('latin1': text in a one-octet charset, as producers on other platforms write it - not valid UTF-8; a text literal says nothing about its charset)
+        for cname, data in (('small', b'foreign body'), ('empty', b''), ('latin1', 'Gr\xfc\xdfe aus K\xf6ln\r\nzweite Zeile\n'.encode('latin-1')),
+                            ('big', bytes(rnd.getrandbits(8) for _ in range(5000)))):
             for fmt, name, t in (('b', b'', 0), ('t', b'notes.txt', T_FILE), ('u', 'résumé.txt'.encode('utf-8'), (1 << 32) - 1), ('b', b'_CONSOLE', 1)):
                 if fmt != 'b' and cname == 'big':
                     continue
+                if fmt == 'u' and cname == 'latin1':
+                    continue          # format u promises UTF-8
                 for nsig in (0, 1, 2):
                     for framing in ('new', 'old', 'partial'):
                         r.states += 1
